@@ -62,3 +62,12 @@ Print Assumptions C17_wrong_type_is_error.
 Theorem C17_not_an_object_is_error : forall v, (forall ps, v <> JObj ps) -> decode_flag v = None.
 Proof. exact decode_flag_not_object. Qed.
 Print Assumptions C17_not_an_object_is_error.
+
+(* every property the encoder writes is one the decoder recognises (gen/Tables.v, regenerated on every run) *)
+From LD Require Import TablesProof.
+From LDGen Require Import Tables.
+From Coq Require Import String.
+Theorem C17_written_properties_are_read :
+  forallb (fun p => String.eqb p "" || mem_s p read_properties) written_properties = true.
+Proof. exact written_properties_are_read. Qed.
+Print Assumptions C17_written_properties_are_read.
